@@ -11,10 +11,10 @@ from simworld.core import H
 from . import common
 
 WEIGHTS = {
-    "C01": {"redox": 3, "hand": 2, "ionic": 1, "mcs-based": 2, "rule-based": 1},
+    "C01": {"redox": 3, "hand": 2, "ionic": 1, "mcs-based": 2, "rule-based": 1, "charge-trap": 1},
     "C02": {"hand": 3, "redox": 1, "mapped": 2, "mcs-based": 1, "stereo": 1},
     "C03": {"declined": 3, "carbon-surplus": 1, "mcs-based": 2, "hand": 1, "redox": 1},
-    "C04": {"input-balanced": 4, "hand": 2, "ionic": 1, "mcs-based": 1, "rule-based": 1},
+    "C04": {"input-balanced": 4, "hand": 2, "ionic": 1, "mcs-based": 1, "rule-based": 1, "charge-trap": 1},
     "C18": {"mcs-based": 2, "rule-based": 1, "input-balanced": 1, "declined": 1, "hand": 1},
 }
 FAULTY = {"C01": 0.5, "C02": 0.3, "C03": 0.5, "C04": 0.2, "C18": 0.4}
@@ -105,6 +105,17 @@ def gen_plan(prop, base_seed, i, tier):
         "config": cfg,
         "sim": common.gen_sim(rng, faults=faulty),
     }
+    if prop == "C01" and rng.random() < 0.25:
+        # a worker task of some Parallel call fails (crash point drawn over the calls the run really makes):
+        # the batch may be lost, but whatever is returned as solved must still be balanced
+        plan["kind"] = "par_fault"
+        plan["points"] = [rng.getrandbits(32) for _ in range(4)]
+        plan["sim"].pop("faults", None)
+    if prop == "C02" and rng.random() < 0.3:
+        # dict rows whose pass-through columns collide with the tool's own column names
+        others = common.pick_rows(rng, len(rows), {})
+        plan["source"] = "dict"
+        plan["rows"] = [{"reaction": r, "input_reaction": o, "note": "n%d" % k} for k, (r, o) in enumerate(zip(rows, others))]
     if prop == "C18" and rng.random() < 0.15:
         plan["source"] = "cli"
         plan["sim"].pop("faults", None)
@@ -123,8 +134,10 @@ def execute(plan):
     from simworld import runner, oracles
 
     prop = plan["property"]
-    rows_in = plan["rows"]
+    rows_in = [r["reaction"] if isinstance(r, dict) else r for r in plan["rows"]]
     valid = [oracles.is_valid_row(r) for r in rows_in]
+    if plan.get("kind") == "par_fault":
+        return execute_par_fault(plan, rows_in)
     res = runner.run_once(plan)
     out = {"violations": [], "nontrivial": None, "summary": common.run_summary(res), "runs": 1}
     rows = res["rows"]
@@ -184,6 +197,39 @@ def execute(plan):
         "outcomes": [[r["solved"], r["solved_by"]] for r in rows],
     }
     out["fired_list"] = res["fired_list"]
+    return out
+
+
+def execute_par_fault(plan, rows_in):
+    """C01 under worker failures: fault-free run to count the Parallel calls, then one run per drawn
+    crash point with the first task of that call failing."""
+    from simworld import runner, oracles
+
+    out = {"violations": [], "nontrivial": None, "summary": [], "runs": 0, "nontrivial_many": []}
+    base = runner.run_once({"rows": plan["rows"], "source": plan.get("source", "list"), "config": plan["config"], "sim": plan["sim"]})
+    out["runs"] += 1
+    out["summary"].append(common.run_summary(base))
+    n = base.get("par_calls", 0)
+    if not n:
+        return out
+    pts = plan.get("calls")
+    if pts is None:
+        pts = sorted({p % n for p in plan["points"]})
+    for k in pts:
+        sim = common.clone(plan["sim"])
+        sim["faults"] = {"explicit": [{"site": "par_task", "key": [k, 0], "kind": "raise"}], "zombie_q": 0.0}
+        sub = {"property": "C01", "kind": "run", "rows": plan["rows"], "source": plan.get("source", "list"), "config": plan["config"], "sim": sim}
+        res = runner.run_once(sub)
+        out["runs"] += 1
+        out["summary"].append(common.run_summary(res))
+        for row in res["rows"] or []:
+            for v in oracles.check_c01(row["input_reaction"] or "", row):
+                v["detail"] = "[worker failure in Parallel call %d of %d] " % (k, n) + v["detail"]
+                v["subplan"] = sub
+                out["violations"].append(v)
+        if res["fired"].get("par_task.raise"):
+            out["nontrivial_many"].append("%016x" % H(sorted(rows_in), plan["config"], k))
+    out["sample"] = {"rows": rows_in, "config": plan["config"], "parallel_calls_in_run": n, "worker_failure_at_calls": pts}
     return out
 
 
